@@ -265,9 +265,26 @@ def run(chk, tier):
         chk.note(flavour, {"mutable_static_objects": listed, "crypt_data_field_address_computations": census})
         if census["output"] < 4 or census["internal"] < 2:
             raise AnalysisBroken("struct crypt_data field census too small (%s): type information lost" % census)
+    # independence from the data object's previous content: the XAI crypt grid starts with the whole data object (and every
+    # local) marked "never written" and reports any load / contract read of such a byte at an exact address
+    from .. import crypt_grid as K, crypt_oracle as KO
+    g = K.run(tier)
+    KO.health(chk, g)
+    chk.rule("X-INIT", "no method reads a byte of the data object (or of a local) that the call has not written before")
+    nread = 0
+    for cid, c in sorted(g["res"].items()):
+        for p in c["paths"]:
+            bad = [a for a in p["alarms"] if a["kind"] == "UNINIT"]
+            for a in bad:
+                chk.fail("X-INIT", "%s@%s:%d" % (g["meta"][cid]["base"], a["fn"], a["line"]), "%s line %d: %s [crypt_rn, %s]" % (a["fn"], a["line"], a["msg"], KO.desc(g, cid)),
+                         "%s:%d" % (a["fn"], a["line"]), {"cell": cid})
+            if not bad:
+                nread += p["nR"]
+    chk.count("X-INIT", nread, ["crypt-grid"])
+    chk.note("crypt_grid", {"cells": g["ncells"], "not_covered": K.UNCOVERED})
     chk.floor("R-FUNNEL", 10)
     chk.floor("R-GLOBALS", 8)
     chk.assumptions += [
-        "NOT decided: that every method initialises each scratch byte before reading it (independence from arbitrary prior contents of `internal`); the wipes after each call are under C09",
+        "read-before-write of the data object is decided by X-INIT for the methods the crypt grid covers (not $y$/$gy$), for exact addresses and outside the contracted digest primitives; the wipes after each call are under C09",
         "untyped accesses through `void *data` (crypt_rn -> make_failure_token) are covered by C04's interpreter, not by the typed field census",
     ]
